@@ -305,6 +305,12 @@ def w_fuzz(ctx, wid, seed, target, seconds, jobs):
         for l in out.splitlines():
             if 'stat::number_of_executed_units' in l:
                 execs = int(l.split(':')[-1])
+            elif l.startswith('#') and ': cov:' in l:
+                # -fork mode progress line: '#<total execs>: cov: ...'
+                try:
+                    execs = max(execs, int(l[1:].split(':')[0]))
+                except ValueError:
+                    pass
             elif l.startswith('#') and 'DONE' in l:
                 try:
                     execs = max(execs, int(l[1:].split()[0]))
